@@ -32,6 +32,10 @@ def known_shape(stim, b, findings):
         if "frag" in sh:
             if b["at"] < 1 or not any(fr["t"] == sh["frag"] for fr in stim["hist"][b["at"] - 1]["p"]):
                 continue
+        if sh.get("doc_scalar") and b["want"]["k"] in ("arr", "obj"):
+            continue
+        if "path_len" in sh and (b["at"] < 1 or len(stim["hist"][b["at"] - 1]["p"]) != sh["path_len"]):
+            continue
         if sh.get("want_has") == "empty-container" and not doc_has(b["want"], lambda d: d["k"] in ("arr", "obj") and not d["v"]):
             continue
         if sh.get("want_has") == "big" and not (doc_has(b["want"], lambda d: d["k"] == "big") or doc_has(stim["start"], lambda d: d["k"] == "big")):
@@ -51,12 +55,15 @@ def run(tier, seed):
     level = 1 if quick else 2
     docs, g0 = gen.bfs(SPEC, "Bag", "BagGen.cfg", {"Level": level, "MaxOps": 0}, timeout=3000, subst={"ACTION_CONSTRAINT Emit": "INVARIANT EmitDoc"})
     rows, g1 = gen.bfs(SPEC, "Bag", "BagGen.cfg", {"Level": level, "MaxOps": 1}, timeout=3000)
+    # has / walk over the paths with a descent fragment ("..")
+    rows_d, gd = gen.bfs(SPEC, "Bag", "BagGen.cfg", {"Level": level, "MaxOps": 1}, timeout=3000, subst={"NEXT Next": "NEXT NextDesc"})
+    rows += rows_d
     shards = 4 if quick else 12
 
     def walk(k):
         return gen.sim(SPEC, "Bag", "BagSim.cfg", {"Level": level, "MaxOps": 6}, num=(80 if quick else 1200) // shards, depth=7, seed=seed * 100 + k, timeout=3000)
 
-    gens = [g0, g1]
+    gens = [g0, g1, gd]
     with ThreadPoolExecutor(max_workers=shards) as ex:
         for r2, g in ex.map(walk, range(shards)):
             rows += r2
@@ -127,5 +134,5 @@ def run(tier, seed):
 def step_path(o):
     out = "$"
     for f in o["p"]:
-        out += "." + f["k"] if f["t"] == "key" else (f"[{f['i']}]" if f["t"] == "idx" else "[*]")
+        out += "." + f["k"] if f["t"] == "key" else (f"[{f['i']}]" if f["t"] == "idx" else (".." if f["t"] == "desc" else "[*]"))
     return out
